@@ -29,6 +29,7 @@ type c08case struct {
 	Backend string `json:"backend"`
 	N       int    `json:"events"`
 	Stops   []int  `json:"stop_after_events"`
+	MaxBulk int    `json:"max_bulk,omitempty"`
 }
 
 // c08Balloon: balloon-level stop/restart at the given stop points; every later snapshot and sampled
@@ -95,6 +96,9 @@ func c08Balloon(c *lib.Ctx, cs c08case, seed uint64) {
 		k := 1
 		if r.Intn(3) == 0 {
 			k = r.Range(1, 5)
+		}
+		if cs.MaxBulk > 0 {
+			k = r.Range(cs.MaxBulk/2, cs.MaxBulk)
 		}
 		for k > 1 && !noStopInside(stop, v, k) {
 			k--
@@ -261,6 +265,12 @@ func RunC08(c *lib.Ctx) {
 			cases = append(cases, c08case{ID: fmt.Sprintf("single-%s-%d", be, k), Backend: be, N: nn, Stops: []int{r.Intn(nn + 1)}})
 			seeds = append(seeds, r.Uint64())
 		}
+	}
+	// large logs: more than 1000 hyper-cache tiles have to be reloaded at reopen (read in chunks of 1000)
+	for _, be := range []string{"rocksdb", "bplus"} {
+		nb := c.Q(1300, 3500)
+		cases = append(cases, c08case{ID: "big-" + be, Backend: be, N: nb, Stops: []int{nb - 250, nb}, MaxBulk: 200})
+		seeds = append(seeds, r0.Uint64())
 	}
 	parallelN(len(cases), 4, func(i int) {
 		if c.Only != "" && c.Only != cases[i].ID {
